@@ -219,6 +219,10 @@ class SaverModel:
                 continue
             # --- helpers of the package that receive the destination (or something derived from it)
             callee = resolve_callee(self.prog, ft, ev)
+            if callee is not None and self.prog.inlinable(callee) and callee.cls is None:
+                if callee.short not in self.functions:
+                    self.functions.append(callee.short)      # part of the saver: the term layer has read this helper through, its events are in `ft`
+                continue
             if callee is not None and depth < 3 and callee.qual != ref.qual:
                 cparams = callee.positional_params()
                 if callee.cls is not None and cparams and cparams[0] == "self":
